@@ -387,9 +387,9 @@ fn format(opt: opt::Opt) -> Result<i32> {
                         };
                     }
                     FormatResult::Diff(diff) => {
-                        if EXIT_CODE.load(Ordering::SeqCst) != 2 {
-                            EXIT_CODE.store(1, Ordering::SeqCst);
-                        }
+                        // Raise the exit code to 1, without ever lowering an error (2) which was
+                        // logged by another thread in the meantime
+                        EXIT_CODE.fetch_max(1, Ordering::SeqCst);
 
                         UNFORMATTED_FILE_COUNT.fetch_add(1, Ordering::SeqCst);
 
